@@ -283,6 +283,40 @@ def gracefulConn (expired : Bool) (c : Conn) : Option Conn :=
   else if expired then none
   else some { c with keepAlive := false }
 
+/-! ### vocabulary of the liveness statement -/
+
+/-- the instant after which the once-per-second sweep gives up on a connection at rest -/
+def Conn.deadline (cfg : Cfg) (c : Conn) : Int :=
+  match c.st with
+  | .close => c.cts + lingerTimeoutH1
+  | .read => c.rts + (if c.n ≠ 1 then (c.kaIdle : Int) else (cfg.ri : Int))
+  | .write => c.wts + (cfg.wi : Int)
+  | _ => c.rts + (cfg.ri : Int)
+
+/-- the shapes in which the main loop leaves an HTTP/1.x connection between two events: waiting for
+    request bytes (FDEVENT_IN wanted), waiting for the client to read (write_request_ts set), or
+    lingering in the close state -/
+def Conn.Rest (c : Conn) : Prop :=
+  (c.st = .read ∧ c.inEv = true) ∨ (c.st = .readPost ∧ c.inEv = true) ∨
+  (c.st = .write ∧ c.inEv = false ∧ c.wts ≠ 0) ∨ c.st = .close
+
+/-- what can happen to a connection while its client does nothing -/
+inductive IdleEv where
+  | tick (now : Int)             -- the periodic sweep, at whatever second
+  | wake                         -- the state machine runs without any I/O being possible
+  | graceful (expired : Bool)    -- graceful-shutdown maintenance
+deriving Repr
+
+def idleStep (cfg : Cfg) (c : Conn) : IdleEv → Option Conn
+  | .tick now => tickConn cfg now c
+  | .wake => some c
+  | .graceful e => gracefulConn e c
+
+def runIdle (cfg : Cfg) : Option Conn → List IdleEv → Option Conn
+  | none, _ => none
+  | some c, [] => some c
+  | some c, e :: es => runIdle cfg (idleStep cfg c e) es
+
 /-! ## Layer C: the server and its scripted clients -/
 
 def base : Int := 1000
@@ -331,9 +365,15 @@ def lookupConn : List (Nat × Conn) → Nat → Option Conn
 
 def Sys.conn (s : Sys) (i : Nat) : Option Conn := lookupConn s.conns i
 
+def eraseConn : List (Nat × Conn) → Nat → List (Nat × Conn)
+  | [], _ => []
+  | (j, c) :: rest, i => if j = i then rest else (j, c) :: eraseConn rest i
+
 /-- connection_close(): the slot and the descriptor are returned -/
 def Sys.release (s : Sys) (i : Nat) : Sys :=
-  { s with conns := s.conns.filter (fun p => p.1 ≠ i), lim := s.lim + 1, curFds := s.curFds - 1 }
+  match lookupConn s.conns i with
+  | none => s
+  | some _ => { s with conns := eraseConn s.conns i, lim := s.lim + 1, curFds := s.curFds - 1 }
 
 def setConn : List (Nat × Conn) → Nat → Conn → List (Nat × Conn)
   | [], _, _ => []
@@ -447,7 +487,9 @@ def Sys.act (cfg : Cfg) (s : Sys) : Op → Sys
     if (s.client i).opened ∨ i ≥ maxClients then s
     else if s.disabled = 3 then s.setClient i { opened := true, fdOpen := false, rderr := true }
     else { s.setClient i { opened := true, fdOpen := true } with backlog := s.backlog ++ [i] }
-  | .prepare i r => if s.usable i then s.modClient i fun cl => { cl with req := some r, off := 0 } else s
+  | .prepare i r =>
+    if !s.usable i ∨ (s.backlog.contains i ∧ (s.client i).pre > 0) then s
+    else s.modClient i fun cl => { cl with req := some r, off := 0 }
   | .send i n =>
     if !s.usable i then s else
     let cl := s.client i
